@@ -34,9 +34,12 @@ VARIABLES
   lastIter, \* id of the most recently created iterator
   manNo,    \* current manifest number
   isOpen,   \* database open
-  flushed   \* a memtable table was built since the last edit (the next edit installs it)
+  flushed,  \* a memtable table was built since the last edit (the next edit installs it)
+  gpins,    \* versions pinned by in-flight gets: set of [t, ver]
+  deferred  \* tables a deletion pass had to keep only because a read view pinned them
 
-traceVars == <<l, viol, bad, dirty, lastEv, runInfo, keep, lastIter, manNo, isOpen, flushed>>
+traceVars == <<l, viol, bad, dirty, lastEv, runInfo, keep, lastIter, manNo, isOpen, flushed,
+               gpins, deferred>>
 allVars == <<coreVars, traceVars>>
 
 Ev == Rec[l]
@@ -67,7 +70,13 @@ ReadLatestOK == \A k \in Keys : Get(k, seq) = AbstractAt(hist, k, seq)
 ReadSnapsOK  == \A s \in SnapSet : \A k \in Keys : Get(k, s) = AbstractAt(hist, k, s)
 ReadPinsOK   == \A p \in pins : \A k \in Keys : PinGet(p, k) = AbstractAt(hist, k, p.seq)
 
-TablesNeeded == FileNos(cur, NL) \cup UNION {FileNos(v, NL) : v \in PinnedVersions}
+\* an iterator whose IterDrop was seen but whose IterDropped was not is in the middle of releasing
+\* its version: it may or may not still pin it
+ReadViews == PinnedVersions \cup {g.ver : g \in gpins}
+FirmViews == {p.ver : p \in {q \in pins : ~q.rel}} \cup (IF comp.on THEN {comp.ver} ELSE {})
+             \cup {g.ver : g \in gpins}
+
+TablesNeeded == FileNos(cur, NL) \cup UNION {FileNos(v, NL) : v \in FirmViews}
 
 LiveDeletedOK ==
   /\ \A n \in TablesNeeded : <<"table", n>> \in disk
@@ -136,16 +145,16 @@ FreshCore(n) ==
   /\ immDone' = FALSE /\ immWal' = 0
   /\ files' = <<>> /\ cur' = EmptyVersion(NL) /\ pins' = {} /\ snaps' = <<>> /\ pending' = {}
   /\ comp' = NoComp /\ disk' = {} /\ nextFile' = 0 /\ curWal' = 0 /\ logWal' = 0
-  /\ nextPin' = 1
+  /\ nextPin' = 1 /\ gcDue' = FALSE
 
 TraceInit ==
   /\ nk = 0 /\ seq = 0 /\ hist = <<>> /\ mem = {} /\ imm = {} /\ immOn = FALSE
   /\ immDone = FALSE /\ immWal = 0
   /\ files = <<>> /\ cur = EmptyVersion(NL) /\ pins = {} /\ snaps = <<>> /\ pending = {}
-  /\ comp = NoComp /\ disk = {} /\ nextFile = 0 /\ curWal = 0 /\ logWal = 0 /\ nextPin = 1
+  /\ comp = NoComp /\ disk = {} /\ nextFile = 0 /\ curWal = 0 /\ logWal = 0 /\ nextPin = 1 /\ gcDue = FALSE
   /\ l = 1 /\ viol = <<>> /\ bad = {} /\ dirty = FALSE /\ lastEv = "none"
   /\ runInfo = [run |-> 0, seed |-> 0] /\ keep = <<>> /\ lastIter = 0 /\ manNo = 0
-  /\ isOpen = FALSE /\ flushed = FALSE
+  /\ isOpen = FALSE /\ flushed = FALSE /\ gpins = {} /\ deferred = {}
 
 Report(final) ==
   PrintT(<<"@@RUN", ToJson([run |-> runInfo.run, seed |-> runInfo.seed, lines |-> l,
@@ -159,27 +168,27 @@ TReset ==
   /\ FreshCore(Ev.nk)
   /\ l' = l + 1 /\ viol' = <<>> /\ bad' = {} /\ dirty' = FALSE /\ lastEv' = "none"
   /\ runInfo' = [run |-> Ev.run, seed |-> Ev.seed] /\ keep' = <<>> /\ lastIter' = 0
-  /\ manNo' = 0 /\ isOpen' = FALSE /\ flushed' = FALSE
+  /\ manNo' = 0 /\ isOpen' = FALSE /\ flushed' = FALSE /\ gpins' = {} /\ deferred' = {}
 
 TEnd ==
   /\ IsEv("End")
   /\ Report(FinalViol)
   /\ PrintT(<<"@@END", l>>)
   /\ l' = l + 1
-  /\ UNCHANGED <<coreVars, viol, bad, dirty, lastEv, runInfo, keep, lastIter, manNo, isOpen, flushed>>
+  /\ UNCHANGED <<coreVars, viol, bad, dirty, lastEv, runInfo, keep, lastIter, manNo, isOpen, flushed, gpins, deferred>>
 
 ---------------------------------------------------------------------------
 (* events without effect on the model *)
 
-StutterNames == {"Open", "ManifestSnapshot", "ObsoleteCollected", "Call", "Ret",
+StutterNames == {"Open", "ManifestSnapshot", "Call", "Ret",
                  "CompactCall", "CompactRet", "FlushCall", "FlushRet", "Close", "Closing",
-                 "CloseRet", "RecoverWal", "BadState", "Fault", "GetCapture", "BgBegin",
+                 "CloseRet", "RecoverWal", "BadState", "Fault", "BgBegin",
                  "BgEnd"}
 
 TStutter ==
   /\ l <= Len(Rec) /\ Rec[l].e \in StutterNames
   /\ Judge /\ Step(FALSE, "")
-  /\ UNCHANGED <<coreVars, runInfo, keep, lastIter, manNo, isOpen, flushed>>
+  /\ UNCHANGED <<coreVars, runInfo, keep, lastIter, manNo, isOpen, flushed, gpins, deferred>>
 
 ---------------------------------------------------------------------------
 (* filesystem operations (SimFs journal) *)
@@ -193,8 +202,8 @@ TFs ==
                [] OTHER -> disk
   /\ Judge /\ Step(Ev.op \in {"remove", "rename"}, "Fs")
   /\ UNCHANGED <<nk, seq, hist, mem, imm, immOn, immDone, immWal, files, cur, pins, snaps,
-                 pending, comp, nextFile, curWal, logWal, nextPin, runInfo, keep, lastIter,
-                 manNo, isOpen, flushed>>
+                 pending, comp, nextFile, curWal, logWal, nextPin, gcDue, runInfo, keep, lastIter,
+                 manNo, isOpen, flushed, gpins, deferred>>
 
 ---------------------------------------------------------------------------
 (* recovery *)
@@ -208,7 +217,8 @@ TRecoverManifest ==
   /\ curWal' = 0
   /\ Judge /\ Step(FALSE, "")
   /\ keep' = <<>> /\ lastIter' = 0 /\ isOpen' = FALSE /\ flushed' = FALSE
-  /\ UNCHANGED <<nk, hist, files, disk, nextPin, runInfo>>
+  /\ gpins' = {} /\ deferred' = {}
+  /\ UNCHANGED <<nk, hist, files, disk, nextPin, gcDue, runInfo>>
 
 \* the database is open: adopt the recovered memtable, sequence number and WAL
 TOpened ==
@@ -225,22 +235,23 @@ TOpened ==
   /\ Step(TRUE, "Opened")
   /\ isOpen' = TRUE
   /\ UNCHANGED <<nk, imm, immOn, immDone, immWal, files, cur, pins, snaps, pending, comp, disk,
-                 nextFile, logWal, nextPin, runInfo, keep, lastIter, manNo, flushed>>
+                 nextFile, logWal, nextPin, gcDue, runInfo, keep, lastIter, manNo, flushed, gpins,
+                 deferred>>
 
 TOpenRet ==
   /\ IsEv("OpenRet")
   /\ JudgeAnd(IF Ev.ok THEN <<>>
               ELSE ObsViol(<<"C01", "C02">>, "OpenFailed", [keys |-> <<>>, at |-> 0]))
   /\ Step(FALSE, "")
-  /\ UNCHANGED <<coreVars, runInfo, keep, lastIter, manNo, isOpen, flushed>>
+  /\ UNCHANGED <<coreVars, runInfo, keep, lastIter, manNo, isOpen, flushed, gpins, deferred>>
 
 TClosed ==
   /\ IsEv("Closed")
   /\ Judge /\ Step(FALSE, "")
   /\ isOpen' = FALSE /\ pins' = {} /\ snaps' = <<>> /\ comp' = NoComp /\ pending' = {}
-  /\ keep' = <<>>
+  /\ keep' = <<>> /\ gpins' = {}
   /\ UNCHANGED <<nk, seq, hist, mem, imm, immOn, immDone, immWal, files, cur, disk, nextFile,
-                 curWal, logWal, nextPin, runInfo, lastIter, manNo, flushed>>
+                 curWal, logWal, nextPin, gcDue, runInfo, lastIter, manNo, flushed, deferred>>
 
 ---------------------------------------------------------------------------
 (* write path *)
@@ -264,7 +275,7 @@ TCommit ==
      /\ seq' = Ev.first + n - 1
   /\ Judge /\ Step(TRUE, "Commit")
   /\ UNCHANGED <<nk, imm, immOn, immDone, immWal, files, cur, pins, snaps, pending, comp, disk,
-                 nextFile, curWal, logWal, nextPin, runInfo, keep, lastIter, manNo, isOpen, flushed>>
+                 nextFile, curWal, logWal, nextPin, gcDue, runInfo, keep, lastIter, manNo, isOpen, flushed, gpins, deferred>>
 
 TRotate ==
   /\ IsEv("Rotate")
@@ -272,7 +283,7 @@ TRotate ==
   /\ curWal' = Ev.newwal
   /\ Judge /\ Step(TRUE, "Rotate")
   /\ UNCHANGED <<nk, seq, hist, files, cur, pins, snaps, pending, comp, disk, nextFile, logWal,
-                 nextPin, runInfo, keep, lastIter, manNo, isOpen, flushed>>
+                 nextPin, gcDue, runInfo, keep, lastIter, manNo, isOpen, flushed, gpins, deferred>>
 
 ---------------------------------------------------------------------------
 (* version edits: flush, compaction, trivial move, recovery *)
@@ -295,20 +306,20 @@ TEdit ==
   /\ Judge /\ Step(Ev.ok, "Edit")
   /\ flushed' = FALSE
   /\ UNCHANGED <<nk, seq, hist, mem, imm, immOn, immWal, pins, snaps, comp, disk, nextFile,
-                 curWal, nextPin, runInfo, keep, lastIter, isOpen>>
+                 curWal, nextPin, gcDue, runInfo, keep, lastIter, isOpen, gpins, deferred>>
 
 TFlushBuilt ==
   /\ IsEv("FlushBuilt")
   /\ flushed' = TRUE
   /\ Judge /\ Step(FALSE, "")
-  /\ UNCHANGED <<coreVars, runInfo, keep, lastIter, manNo, isOpen>>
+  /\ UNCHANGED <<coreVars, runInfo, keep, lastIter, manNo, isOpen, gpins, deferred>>
 
 TImmDropped ==
   /\ IsEv("ImmDropped")
   /\ immOn' = FALSE /\ imm' = {} /\ immDone' = FALSE
   /\ Judge /\ Step(TRUE, "ImmDropped")
   /\ UNCHANGED <<nk, seq, hist, mem, immWal, files, cur, pins, snaps, pending, comp, disk,
-                 nextFile, curWal, logWal, nextPin, runInfo, keep, lastIter, manNo, isOpen, flushed>>
+                 nextFile, curWal, logWal, nextPin, gcDue, runInfo, keep, lastIter, manNo, isOpen, flushed, gpins, deferred>>
 
 TPicked ==
   /\ IsEv("Picked")
@@ -317,15 +328,15 @@ TPicked ==
                    ver |-> cur, todo |-> {}, outs |-> {}]
   /\ Judge /\ Step(FALSE, "")
   /\ UNCHANGED <<nk, seq, hist, mem, imm, immOn, immDone, immWal, files, cur, pins, snaps,
-                 pending, disk, nextFile, curWal, logWal, nextPin, runInfo, keep, lastIter,
-                 manNo, isOpen, flushed>>
+                 pending, disk, nextFile, curWal, logWal, nextPin, gcDue, runInfo, keep, lastIter,
+                 manNo, isOpen, flushed, gpins, deferred>>
 
 TOutputOpened ==
   /\ IsEv("OutputOpened")
   /\ pending' = pending \cup {Ev.f}
   /\ Judge /\ Step(FALSE, "")
   /\ UNCHANGED <<nk, seq, hist, mem, imm, immOn, immDone, immWal, files, cur, pins, snaps, comp,
-                 disk, nextFile, curWal, logWal, nextPin, runInfo, keep, lastIter, manNo, isOpen, flushed>>
+                 disk, nextFile, curWal, logWal, nextPin, gcDue, runInfo, keep, lastIter, manNo, isOpen, flushed, gpins, deferred>>
 
 TCompactionDone ==
   /\ IsEv("CompactionDone")
@@ -333,7 +344,7 @@ TCompactionDone ==
   /\ pending' = pending \ SeqSet(Ev.outputs)
   /\ Judge /\ Step(FALSE, "")
   /\ UNCHANGED <<nk, seq, hist, mem, imm, immOn, immDone, immWal, files, cur, pins, snaps, disk,
-                 nextFile, curWal, logWal, nextPin, runInfo, keep, lastIter, manNo, isOpen, flushed>>
+                 nextFile, curWal, logWal, nextPin, gcDue, runInfo, keep, lastIter, manNo, isOpen, flushed, gpins, deferred>>
 
 ---------------------------------------------------------------------------
 (* snapshots and iterators *)
@@ -343,8 +354,8 @@ TSnapshot ==
   /\ snaps' = Append(snaps, Ev.seq)
   /\ Judge /\ Step(FALSE, "")
   /\ UNCHANGED <<nk, seq, hist, mem, imm, immOn, immDone, immWal, files, cur, pins, pending,
-                 comp, disk, nextFile, curWal, logWal, nextPin, runInfo, keep, lastIter, manNo,
-                 isOpen, flushed>>
+                 comp, disk, nextFile, curWal, logWal, nextPin, gcDue, runInfo, keep, lastIter, manNo,
+                 isOpen, flushed, gpins, deferred>>
 
 RemoveOne(sq, x) ==
   IF \E i \in 1..Len(sq) : sq[i] = x
@@ -357,31 +368,60 @@ TRelease ==
   /\ snaps' = RemoveOne(snaps, Ev.seq)
   /\ Judge /\ Step(FALSE, "")
   /\ UNCHANGED <<nk, seq, hist, mem, imm, immOn, immDone, immWal, files, cur, pins, pending,
-                 comp, disk, nextFile, curWal, logWal, nextPin, runInfo, keep, lastIter, manNo,
-                 isOpen, flushed>>
+                 comp, disk, nextFile, curWal, logWal, nextPin, gcDue, runInfo, keep, lastIter, manNo,
+                 isOpen, flushed, gpins, deferred>>
 
 TIterNew ==
   /\ IsEv("IterNew")
   /\ pins' = pins \cup {[id |-> Ev.id, mem |-> mem, imm |-> IF immOn THEN imm ELSE {},
-                         ver |-> cur, seq |-> Ev.seq]}
+                         ver |-> cur, seq |-> Ev.seq, rel |-> FALSE]}
   /\ lastIter' = Ev.id
   /\ Judge /\ Step(FALSE, "")
   /\ UNCHANGED <<nk, seq, hist, mem, imm, immOn, immDone, immWal, files, cur, snaps, pending,
-                 comp, disk, nextFile, curWal, logWal, nextPin, runInfo, keep, manNo, isOpen, flushed>>
+                 comp, disk, nextFile, curWal, logWal, nextPin, gcDue, runInfo, keep, manNo, isOpen, flushed, gpins, deferred>>
 
 TIterDrop ==
   /\ IsEv("IterDrop")
-  /\ pins' = {p \in pins : p.id # Ev.id}
+  /\ pins' = {IF p.id = Ev.id THEN [p EXCEPT !.rel = TRUE] ELSE p : p \in pins}
   /\ keep' = SelectSeq(keep, LAMBDA x : x # Ev.id)
   /\ Judge /\ Step(FALSE, "")
   /\ UNCHANGED <<nk, seq, hist, mem, imm, immOn, immDone, immWal, files, cur, snaps, pending,
-                 comp, disk, nextFile, curWal, logWal, nextPin, runInfo, lastIter, manNo, isOpen, flushed>>
+                 comp, disk, nextFile, curWal, logWal, nextPin, gcDue, runInfo, lastIter, manNo, isOpen, flushed, gpins, deferred>>
+
+TIterDropped ==
+  /\ IsEv("IterDropped")
+  /\ pins' = {p \in pins : p.id # Ev.id}
+  /\ Judge /\ Step(FALSE, "")
+  /\ UNCHANGED <<nk, seq, hist, mem, imm, immOn, immDone, immWal, files, cur, snaps, pending,
+                 comp, disk, nextFile, curWal, logWal, nextPin, gcDue, runInfo, keep, lastIter,
+                 manNo, isOpen, flushed, gpins, deferred>>
 
 TIterKeep ==
   /\ IsEv("IterKeep")
   /\ keep' = Append(keep, lastIter)
   /\ Judge /\ Step(FALSE, "")
-  /\ UNCHANGED <<coreVars, runInfo, lastIter, manNo, isOpen, flushed>>
+  /\ UNCHANGED <<coreVars, runInfo, lastIter, manNo, isOpen, flushed, gpins, deferred>>
+
+TGetCapture ==
+  /\ IsEv("GetCapture")
+  /\ gpins' = {g \in gpins : g.t # Ev.t} \cup {[t |-> Ev.t, ver |-> cur]}
+  /\ Judge /\ Step(FALSE, "")
+  /\ UNCHANGED <<coreVars, runInfo, keep, lastIter, manNo, isOpen, flushed, deferred>>
+
+TGetDone ==
+  /\ IsEv("GetDone")
+  /\ gpins' = {g \in gpins : g.t # Ev.t}
+  /\ Judge /\ Step(FALSE, "")
+  /\ UNCHANGED <<coreVars, runInfo, keep, lastIter, manNo, isOpen, flushed, deferred>>
+
+\* a deletion pass: remember the tables it keeps only because a read view still pins them
+TObsoleteCollected ==
+  /\ IsEv("ObsoleteCollected")
+  /\ deferred' = deferred \cup
+        {n \in UNION {FileNos(v, NL) : v \in ReadViews} :
+            n \notin FileNos(cur, NL) /\ n \notin pending /\ <<"table", n>> \in disk}
+  /\ Judge /\ Step(FALSE, "")
+  /\ UNCHANGED <<coreVars, runInfo, keep, lastIter, manNo, isOpen, flushed, gpins>>
 
 ---------------------------------------------------------------------------
 (* observations *)
@@ -406,7 +446,7 @@ TObs ==
                ELSE <<>> IN
      JudgeAnd(((v1 \o v2) \o v3) \o v4)
   /\ Step(FALSE, "")
-  /\ UNCHANGED <<coreVars, runInfo, keep, lastIter, manNo, isOpen, flushed>>
+  /\ UNCHANGED <<coreVars, runInfo, keep, lastIter, manNo, isOpen, flushed, gpins, deferred>>
 
 PinById(id) == CHOOSE p \in pins : p.id = id
 
@@ -424,7 +464,7 @@ TIterObs ==
                ELSE <<>> IN
      JudgeAnd(v2 \o v3)
   /\ Step(FALSE, "")
-  /\ UNCHANGED <<coreVars, runInfo, keep, lastIter, manNo, isOpen, flushed>>
+  /\ UNCHANGED <<coreVars, runInfo, keep, lastIter, manNo, isOpen, flushed, gpins, deferred>>
 
 \* cursor walk against the sorted map: steps are <<move, arg, key, value>>; position 0 = invalid
 FirstAtLeast(vis, k) ==
@@ -457,7 +497,7 @@ TIterWalk ==
      JudgeAnd(IF WalkOK(vis, Ev.steps, 1, 0) THEN <<>>
               ELSE ObsViol(<<"C04">>, "WalkWrong", [keys |-> <<>>, at |-> p.seq]))
   /\ Step(FALSE, "")
-  /\ UNCHANGED <<coreVars, runInfo, keep, lastIter, manNo, isOpen, flushed>>
+  /\ UNCHANGED <<coreVars, runInfo, keep, lastIter, manNo, isOpen, flushed, gpins, deferred>>
 
 ---------------------------------------------------------------------------
 (* quiescent dumps: bind the reconstructed state to the real one and judge the shape *)
@@ -480,13 +520,18 @@ TDump ==
          c10 == IF ~WellFormedVer(real, files, NL)
                 THEN ObsViol(<<"C10">>, "IllFormed", [keys |-> <<>>, at |-> 0]) ELSE <<>>
          quiet == Ev.pins = 0 /\ Ev.nsnaps = 0 /\ ~Ev.imm /\ ~Ev.bad
+         extra == {d[2] : d \in {x \in dir \ ExpectedDir : x[1] = "table"}}
          c11 == IF quiet /\ dir # ExpectedDir
-                THEN ObsViol(<<"C11">>, "DirNotExact",
-                       [keys |-> SetToSeq((dir \ ExpectedDir) \cup (ExpectedDir \ dir)), at |-> Ev.live])
+                THEN IF (ExpectedDir \subseteq dir) /\ (\A x \in dir \ ExpectedDir : x[1] = "table")
+                        /\ extra \subseteq deferred
+                     THEN ObsViol(<<"C11">>, "DeferredReclaim",
+                            [keys |-> SetToSeq(dir \ ExpectedDir), at |-> Ev.live])
+                     ELSE ObsViol(<<"C11">>, "DirNotExact",
+                            [keys |-> SetToSeq((dir \ ExpectedDir) \cup (ExpectedDir \ dir)), at |-> Ev.live])
                 ELSE <<>> IN
      JudgeAnd((((b1 \o b2) \o b3) \o c10) \o c11)
   /\ Step(FALSE, "")
-  /\ UNCHANGED <<coreVars, runInfo, keep, lastIter, manNo, isOpen, flushed>>
+  /\ UNCHANGED <<coreVars, runInfo, keep, lastIter, manNo, isOpen, flushed, gpins, deferred>>
 
 ---------------------------------------------------------------------------
 (* liveness observations *)
@@ -495,13 +540,13 @@ THang ==
   /\ IsEv("Hang")
   /\ JudgeAnd(ObsViol(<<"C09">>, "Hang", [keys |-> <<>>, at |-> 0]))
   /\ Step(FALSE, "")
-  /\ UNCHANGED <<coreVars, runInfo, keep, lastIter, manNo, isOpen, flushed>>
+  /\ UNCHANGED <<coreVars, runInfo, keep, lastIter, manNo, isOpen, flushed, gpins, deferred>>
 
 TPanic ==
   /\ IsEv("Panic")
   /\ JudgeAnd(ObsViol(<<"C09">>, "Panic", [keys |-> <<>>, at |-> 0]))
   /\ Step(FALSE, "")
-  /\ UNCHANGED <<coreVars, runInfo, keep, lastIter, manNo, isOpen, flushed>>
+  /\ UNCHANGED <<coreVars, runInfo, keep, lastIter, manNo, isOpen, flushed, gpins, deferred>>
 
 ---------------------------------------------------------------------------
 
@@ -509,7 +554,8 @@ TraceNext ==
   \/ TReset \/ TEnd \/ TStutter \/ TFs
   \/ TRecoverManifest \/ TOpened \/ TOpenRet \/ TClosed
   \/ TCommit \/ TRotate \/ TEdit \/ TFlushBuilt \/ TImmDropped \/ TPicked \/ TOutputOpened \/ TCompactionDone
-  \/ TSnapshot \/ TRelease \/ TIterNew \/ TIterDrop \/ TIterKeep
+  \/ TSnapshot \/ TRelease \/ TIterNew \/ TIterDrop \/ TIterDropped \/ TIterKeep
+  \/ TGetCapture \/ TGetDone \/ TObsoleteCollected
   \/ TObs \/ TIterObs \/ TIterWalk \/ TDump \/ THang \/ TPanic
 
 TraceSpec == TraceInit /\ [][TraceNext]_allVars
